@@ -238,7 +238,9 @@ def candidates(rng, f, n, env=None):
     elif fam in ("file", "include"):
         pool = FILE_POOL
     elif fam == "bytes":
-        pool = [b"", b"\x00\xff", b"plain", "text", "\u00e9", bytearray(b"x"), b"x" * 100, "", "YWJj", b"\x80abc"]
+        pool = [b"", b"\x00\xff", b"plain", "text", "\u00e9", bytearray(b"x"), b"x" * 100, "", "YWJj", b"\x80abc",
+                # text that reads like some encoding of bytes: it is text all the same
+                "de:ad:be:ef", "DE-AD-BE-EF", "00:11", "deadbeef", "0xdead", "ab cd", "\\x00\\xff", "b'raw'", "aGVsbG8="]
     elif fam == "secure":
         pool = ["tk%016x" % rng.getrandbits(64), "", "pass word", "\u00e9\u4e2d", "x" * 50, "a", "p" * 16, "q" * 32, "\u00e9" * 8,
                 "sixteen-bytes-ok" + chr(1), "r" * 48, "block-aligned-16"]
